@@ -319,8 +319,10 @@ def derive(g: Grammar, rule: str, universe: str = "0129azAZ_ .-", max_rep: int =
     return res, trunc[0]
 
 
-def sample(g: Grammar, rule: str, rnd, universe: str = "0129azAZ_ .-", max_rep: int = 3, ws=("", " "), depth: int = 0) -> str | None:
-    """One random derivation of `rule` (None if it runs into an undefined rule or too deep recursion)."""
+def sample(g: Grammar, rule: str, rnd, universe: str = "0129azAZ_ .-", max_rep: int = 3, ws=("", " "), depth: int = 0, stretch: bool = False) -> str | None:
+    """One random derivation of `rule` (None if it runs into an undefined rule or too deep recursion).
+
+    stretch=True: every unbounded repetition (`*`, `+`, `{n,}`) is taken exactly max_rep times (long derivations)."""
     def alts(a_list, d):
         if not a_list:
             return None
@@ -348,7 +350,8 @@ def sample(g: Grammar, rule: str, rnd, universe: str = "0129azAZ_ .-", max_rep: 
         out = []
         for k, p, (lo, hi) in a:
             top = hi if hi is not None else max(lo, max_rep)
-            for _ in range(rnd.randint(lo, top)):
+            n = top if (stretch and hi is None) else rnd.randint(lo, top)
+            for _ in range(n):
                 x = elem(k, p, d)
                 if x is None:
                     return None
